@@ -146,7 +146,7 @@ def judgeGb (toks : List String) (out : List String) : String :=
   | none => "bad unparsable-op"
   | some op =>
     if !(recs op.stream).all (fun r => stepOk op.conf r.vals) then "ok"
-    else if !(validLogB (recs op.stream) && validLogB (recs (buffer op.stream))) then "ok"
+    else if !(validFast (recs op.stream) && validFast (recs (buffer op.stream))) then "ok"
     else match out with
       | "ok" :: ms =>
         match parseMsgs ms with
